@@ -185,10 +185,24 @@ def run_case(case, prefix=None):
             x.ce(True)
         sim.advance(2 * MS)
 
+    twin = None
+    if case.get("twin"):
+        # a second radio with its own driver object in the same program (quiet: nothing in its FIFOs, no flags); it is
+        # polled before every op, so the accessors that answer from the last status byte must use their OWN object's
+        from vlib.sim.radio import Chip
+        from vlib.checks.linkutil import mk_radio
+        twin = mk_radio(drv, Chip(sim, med, "W"))
+        twin.listen = False
+        res.label("second-radio-polled-in-between")
     try:
         for op in case["ops"]:
             k = op[0]
             settle()
+            if twin is not None and k in ("any", "fifo", "read", "available", "update", "clear", "last_tx_arc", "flush_rx", "flush_tx"):
+                st0 = D.last_status
+                twin.update()
+                D.last_status = st0  # (the twin's transaction does not touch this chip)
+                cached_ok("a-transaction-on-the-other-radio")
             rx_before = list(D.rxf)
             tx_before = [bytes(e.payload) for e in D.txf]
             fl_before = D.flags
@@ -397,6 +411,7 @@ def strategy(drv="full"):
         "lens": st.lists(st.integers(1, 32), min_size=6, max_size=6),
         "dynmask": st.integers(0, 0x3F),
         "ops": st.lists(st.one_of(*ops).map(list), min_size=3, max_size=40),
+        "twin": st.sampled_from([False, False, True]),
     })
 
 
@@ -416,7 +431,7 @@ def _enum(depth, drv="full"):
         for mode in modes:
             for w in itertools.product(ENUM_ALPHA, repeat=depth):
                 yield {"drv": drv, "mode": mode, "lens": [5, 7, 9, 11, 13, 32], "dynmask": 0x2A,
-                       "ops": [["listen", True]] + [list(o) for o in w] + ENUM_TAIL}
+                       "ops": [["listen", True]] + [list(o) for o in w] + ENUM_TAIL, "twin": w[0][0] == "peer_send"}
     return gen
 
 
